@@ -58,6 +58,17 @@ var c03formSeeds = []string{
 	`f := func(a int) int { return a }; f(1)`, `import "fmt"; fmt.Println(1)`, `import ( "math"; s "strings" ); math.Sqrt(4); s.Repeat("a", 2)`, `var f func() int; f()`, `panic("x")`,
 	`x := 1 << 3 | 2 &^ 1`, `!true || false && 1 < 2`, `type M []float64; m := M{1}; m[0]`, `type E struct{}; var e *E; e == nil`, `x := 'a'; y := "a" + "b"; z := 1.5e3; x; y; z`,
 	`func f() { f() }; f()`, `m := map[string]any{}; m["self"] = m; println(m)`, `s := []any{nil}; s[0] = s; println(s); m := map[int]any{1: s}; s[0] = m; println(m)`, `type N struct { p any }; n := &N{}; n.p = n; println(n); l := []any{n}; n.p = l; println(l)`, `func f() int { x := []int{1, 2}; x[1] = 5; m := map[int]int{1: 2}; m[1] = 3; return x[0] + m[1] }; f()`, `type T struct { n int }; func f() int { t := &T{n: 1}; t.n = 2; t.n++; return t.n }; f()`, "import (\nx \"a\"\n)", `import "fmt"; import f "fmt"; f.Println(1)`, `import x "\400"`, `for { }`, `x := []int{}; x[0]`, `var m map[string]int; m["a"] = 1`, `1 / 0`, `$`, `$ 1`,
+	// valid Go at or beyond the edge of the subset: every optional part omitted, every statement form goatlang may not know
+	`for i := 0; ; i++ { break }`, `for ; ; { break }`, `i := 0; for ; i < 2; { i++ }`, `for i := 0; i < 2; { i++ }`, `for i := range 3 { _ = i }`, `for range []int{1} { }`,
+	`if ; true { }`, `switch x := 1; x { case 1: }`, `switch x := 1; { case x > 0: }`, `switch { }`, `switch 1 { default: fallthrough; case 2: }`,
+	`func() { }()`, `func f() { defer f() }`, `func f() { go f() }`, `L: for { break L }`, `goto L; L:`, `var a [3]int; a[0]`, `a := [...]int{1, 2}; a[1]`, `x := 1i`, `c := make(chan int, 1); c <- 1; <-c`, `select { }`,
+	`var x any = 1; switch v := x.(type) { case int: _ = v }`, `var x any = 1; y := x.(int); y`, `var x any = 1; y, ok := x.(int); y; ok`, `func f[T any](x T) T { return x }; f(1)`, `x := []int{1, 2, 3}; x[0:1:2]`,
+	`type T struct { a, b int; c string }; t := T{1, 2, "c"}; t.a`, `type T struct { N struct { m int } }; var t T; t.N.m`, `s := struct{ a int }{1}; s.a`, `type A = int; var a A`, `type ( A int; B []A )`, `var ( a = 1; b int )`,
+	`const c int = 1`, `x := new(int); *x = 1; *x`, `x := 1; p := &x; *p`, `type T struct{}; func (T) M() {}; T.M(T{})`, `type T struct{}; func (t T) M() {}; f := T{}.M; f()`, `var f func(int, ...string) (int, error)`,
+	`x := map[string][]int{"a": {1}}; x["a"][0]`, `x := [][]int{{1}, {2}}; x[1][0]`, `x := []struct{ a int }{{1}}; x[0].a`, `var _ = 1`, `_ = 1`, `x := 1; x, y := 2, 3; y`, `a, b := 1`, `return`, `return 1, 2`, `break`, `continue`, `fallthrough`,
+	`package main; func main() { }`, `package main; import "fmt"; func init() { fmt.Println(1) }`, `import . "fmt"`, `import _ "fmt"`, `func main`, `func (`, `type T`, `type T struct`, `var`, `const`, `x.`, `x[`, `f(`, `[]int{`, `map[`, `1 +`, `-`, `func f() (a, b int) { return }; f()`, `func f(a, b int, c string) { }; f(1, 2, "")`,
+	`func f() (int, string) { return 1, "" }; a, b := f(); a; b`, `type T struct { f func() int }; t := &T{f: func() int { return 1 }}; t.f()`, `type I interface { M() }; type T struct{}; func (t *T) M() { }; var i I = &T{}; i.M()`, `x := "a"; x += "b"; x[0]`, `for i, c := range "hé" { _ = i; _ = c }`,
+	`m := map[string]int{}; m["a"]++; m["a"] += 2; for k, v := range m { _ = k; _ = v }`, `x := 1; x <<= 2; x >>= 1; x &^= 1; x %= 3`, `x := uint8(255); x++; y := int8(-128); y--; x; y`, `f := 1.5; i := int(f); s := string(rune(65)); b := []byte("a"); i; s; b`,
 }
 
 type c03case struct {
@@ -68,6 +79,8 @@ type c03case struct {
 	Opts  int               `json:"opts"`
 	Entry int               `json:"entry"` // trees: 0 Eval of `import "a"`-style source, 1 Load("main"), 2 Load("main/f.go")
 	Fault int               `json:"fault"` // trees: 0 none, k>0: the k-th fs call fails
+	Masks []int             `json:"masks,omitempty"`
+	Gen   *c03scaleGen      `json:"gen,omitempty"` // scale: Src is produced from this (kept out of the replay file's size)
 }
 
 // --- seeds ---------------------------------------------------------------------------------
@@ -290,9 +303,285 @@ func c03spaces(thorough bool) []c03space {
 		}
 		return c03case{Src: c03join(c03dev1(first, small, second))}
 	}})
+	// loadsrc: the token and seed spaces again, as the one file of package main, through Load
+	tokSp, seedSp := sp[1], sp[2]
+	frames := []string{"", "package main\n", "package main\nfunc main() {\n", "package main\nimport \"fmt\"\nvar _ = fmt.Sprint\n"}
+	sp = append(sp, c03space{"loadsrc", tokSp.size*len(frames)*2 + seedSp.size, func(i int) c03case {
+		var src string
+		var frame, entry int
+		if i < tokSp.size*len(frames)*2 {
+			entry = 1 + i%2
+			frame = i / 2 % len(frames)
+			src = tokSp.gen(i / 2 / len(frames)).Src
+		} else {
+			i -= tokSp.size * len(frames) * 2
+			src = seedSp.gen(i).Src
+			entry = 1 + i%2
+			frame = i / 2 % len(frames)
+		}
+		src = frames[frame] + src
+		if frame == 2 {
+			src += "\n}\n"
+		}
+		m := i % 8
+		return c03case{Src: src, Files: map[string]string{"main/f0.go": src}, Entry: entry, Masks: []int{m, 7 - m}}
+	}})
+	// types: all type expressions of <=5 constructors (and pure chains up to 12) over 6 bases in 6 statement forms
+	sp = append(sp, c03typeSpace(thorough))
+	// scale: inputs at and across the widths of the encodings (8, 15, 16, 20 bits)
+	sp = append(sp, c03scaleSpace(thorough))
 	// trees
 	sp = append(sp, c03treeSpace(thorough))
 	return sp
+}
+
+// --- types ---------------------------------------------------------------------------------------
+
+var c03tcons = []string{"[]", "map[string]", "map[int]", "*"}
+var c03tbase = []string{"int", "string", "float64", "T", "any", "func()"}
+var c03tforms = []string{"var x TYPE; println(x)", "x := TYPE{}; println(x)", "x := make(TYPE, 1); println(x)", "func f(a TYPE) TYPE { return a }; x := f(nil); println(x)", "type U struct { f TYPE }; u := &U{}; println(u.f); println(u)", "var x any = TYPE{}; println(x)"}
+var c03tpre = []int{0, 90, 200}
+
+func c03typeExprs(thorough bool) []string {
+	maxLen := 4
+	if thorough {
+		maxLen = 6
+	}
+	out := []string{""}
+	level := []string{""}
+	for l := 1; l <= maxLen; l++ {
+		var next []string
+		for _, p := range level {
+			for _, c := range c03tcons {
+				next = append(next, p+c)
+			}
+		}
+		out = append(out, next...)
+		level = next
+	}
+	for _, c := range c03tcons[:3] {
+		for k := maxLen + 1; k <= 12; k++ {
+			out = append(out, strings.Repeat(c, k))
+		}
+	}
+	return out
+}
+
+func c03typeSpace(thorough bool) c03space {
+	ex := c03typeExprs(thorough)
+	nb, nf, np := len(c03tbase), len(c03tforms), len(c03tpre)
+	return c03space{"types", len(ex) * nb * nf * np, func(i int) c03case {
+		pre := c03tpre[i%np]
+		i /= np
+		form := c03tforms[i%nf]
+		i /= nf
+		base := c03tbase[i%nb]
+		i /= nb
+		var sb strings.Builder
+		for g := 0; g < pre; g++ {
+			fmt.Fprintf(&sb, "var g%d = %d\n", g, g)
+		}
+		sb.WriteString("type T struct { a int }\n")
+		sb.WriteString(strings.ReplaceAll(form, "TYPE", ex[i]+base))
+		m := i % 8
+		return c03case{Src: sb.String(), Masks: []int{m, 7 - m, 3}}
+	}}
+}
+
+// --- scale ---------------------------------------------------------------------------------------
+
+type c03scaleGen struct {
+	Kind string `json:"kind"`
+	N    int    `json:"n"`
+	Tail int    `json:"tail"`
+}
+
+var c03scaleTails = []string{"x := 1\nx", "x := \"\\400\"", "x /;", "x := undefinedName", "y := 0; x := 1/y", "func f() int { y := 0; return 1/y }; func g() int { return f() }; g()", "var m map[string]int; m[\"k\"] = 1", "panic(\"p\")"}
+var c03padKinds = []string{"newlines", "spaces", "block-comment", "line-comment", "crlf", "tabs", "semicolons"}
+var c03bigKinds = []string{"paren", "block", "slicetype", "literal", "locals", "globals", "stmts", "args", "ident", "string", "rawstring", "digits", "params", "fields", "methods", "mapentries", "results", "funcs", "returns-of", "sprint-args", "string-concat-run"}
+var c03quadKinds = []string{"call", "chain", "neg", "else", "not", "and-chain", "deref", "closure-nest", "index-nest", "index-chain", "select-chain", "if-else-if", "cases"}
+
+func (g c03scaleGen) source() string {
+	n := g.N
+	rep := strings.Repeat
+	var sb strings.Builder
+	many := func(f string, a ...func(i int) any) {
+		for i := 0; i < n; i++ {
+			args := make([]any, len(a))
+			for k := range a {
+				args[k] = a[k](i)
+			}
+			fmt.Fprintf(&sb, f, args...)
+		}
+	}
+	id := func(i int) any { return i }
+	switch g.Kind {
+	case "newlines":
+		return rep("\n", n) + c03scaleTails[g.Tail]
+	case "spaces":
+		return rep(" ", n) + c03scaleTails[g.Tail]
+	case "tabs":
+		return rep("\t", n) + c03scaleTails[g.Tail]
+	case "crlf":
+		return rep("\r\n", n) + c03scaleTails[g.Tail]
+	case "semicolons":
+		return rep(";", n) + c03scaleTails[g.Tail]
+	case "block-comment":
+		return "/*" + rep("c\n", n) + "*/ " + c03scaleTails[g.Tail]
+	case "line-comment":
+		return "//" + rep("c", n) + "\n" + c03scaleTails[g.Tail]
+	case "paren":
+		return "x := " + rep("(", n) + "1" + rep(")", n) + "\nx"
+	case "block":
+		return "x := 0\n" + rep("{", n) + "x++" + rep("}", n) + "\nx"
+	case "slicetype":
+		return "var x " + rep("[]", n) + "int\nprintln(len(x))"
+	case "literal":
+		return "x := []int{" + rep("1,", n) + "}\nlen(x)"
+	case "locals":
+		sb.WriteString("func f() int {\n")
+		many("v%d := %d\n", id, id)
+		fmt.Fprintf(&sb, "s := 0\nfor k, v := range []int{1, 2, 3} {\ns += k*v\n}\nreturn v%d + s\n}\nx := f()\nx", n-1)
+		return sb.String()
+	case "globals":
+		many("v%d := %d\n", id, id)
+		fmt.Fprintf(&sb, "func f() int { return v%d / v0 }\nf()\nx := f()", n-1)
+		return sb.String()
+	case "stmts":
+		return "x := 0\nfor i := 0; i < 2; i++ {\nif i == 1 {\nbreak\n}\n" + rep("x++\n", n) + "if x < 0 {\ncontinue\n}\n}\nx"
+	case "args":
+		return "func f(a ...int) int { return len(a) }\nx := f(" + rep("1,", n) + ")\nx"
+	case "ident":
+		name := rep("a", n)
+		return name + " := 1\n" + name + " / 0"
+	case "string":
+		return "x := \"" + rep("s", n) + "\"\nlen(x)"
+	case "rawstring":
+		return "x := `" + rep("s\n", n) + "`\nlen(x) / 0"
+	case "digits":
+		return "x := " + rep("9", n) + "\nx"
+	case "params":
+		sb.WriteString("func f(")
+		many("p%d int, ", id)
+		sb.WriteString(") int { return p0 }\nx := f(")
+		many("%d, ", id)
+		sb.WriteString(")\nx")
+		return sb.String()
+	case "fields":
+		sb.WriteString("type T struct {\n")
+		many("f%d int\n", id)
+		fmt.Fprintf(&sb, "}\nt := &T{f%d: 1}\nt.f0 = 2\nprintln(t.f%d)\nx := t.f0 / (t.f%d - 1)", n-1, n-1, n-1)
+		return sb.String()
+	case "methods":
+		sb.WriteString("type T struct { n int }\n")
+		many("func (t *T) M%d() int { return t.n + %d }\n", id, id)
+		fmt.Fprintf(&sb, "t := &T{n: 1}\nx := t.M%d() + t.M0()\nx", n-1)
+		return sb.String()
+	case "cases":
+		fmt.Fprintf(&sb, "x := 0\nswitch %d {\n", n-1)
+		many("case %d:\nx = %d\n", id, id)
+		sb.WriteString("default:\nx = -1\n}\nx")
+		return sb.String()
+	case "mapentries":
+		sb.WriteString("m := map[int]int{")
+		many("%d: %d, ", id, id)
+		fmt.Fprintf(&sb, "}\nx := len(m) + m[%d]\nx", n-1)
+		return sb.String()
+	case "results":
+		sb.WriteString("func f() (" + rep("int, ", n) + ") { return " + rep("1, ", n-1) + "2 }\n")
+		sb.WriteString(rep("_, ", n-1) + "x := f()\nx")
+		return sb.String()
+	case "funcs":
+		many("func f%d() int { return %d }\n", id, id)
+		fmt.Fprintf(&sb, "x := f%d() + f0()\nx", n-1)
+		return sb.String()
+	case "returns-of":
+		sb.WriteString("func f(k int) int {\n")
+		many("if k == %d { return %d }\n", id, id)
+		fmt.Fprintf(&sb, "return -1\n}\nx := f(%d)\nx", n-1)
+		return sb.String()
+	case "sprint-args":
+		return "import \"fmt\"\nx := fmt.Sprint(" + rep("1, ", n) + ")\nlen(x)"
+	case "index-chain":
+		return "x := []int{0}\ny := x" + rep("[0:1]", n) + "\nlen(y)"
+	case "select-chain":
+		return "type T struct { p *T; n int }\nt := &T{n: 1}\nt.p = t\nx := t" + rep(".p", n) + ".n\nx"
+	case "if-else-if":
+		sb.WriteString("x := 0\nk := -1\n")
+		many("if k == %d { x = %d } else ", id, id)
+		sb.WriteString("{ x = -1 }\nx")
+		return sb.String()
+	case "string-concat-run":
+		return "x := \"\"\nfor i := 0; i < " + strconv.Itoa(n) + "; i++ { x += \"ab\" }\nlen(x)"
+	case "call":
+		return "func f(a int) int { return a }\nx := " + rep("f(", n) + "1" + rep(")", n) + "\nx"
+	case "chain":
+		return "x := 1" + rep(" + 1", n) + "\nx"
+	case "neg":
+		return "x := " + rep("- ", n) + "1\nx"
+	case "not":
+		return "x := " + rep("!", n) + "true\nx"
+	case "else":
+		return "x := 0\n" + rep("if false { } else ", n) + "{ x = 1 }\nx"
+	case "and-chain":
+		return "x := true" + rep(" && true", n) + "\nx"
+	case "deref":
+		return "type T struct { n int }\nt := &T{n: 1}\nx := (" + rep("*", n) + "t).n\nx"
+	case "closure-nest":
+		return "f := " + rep("func() int { return ", n) + "1" + rep(" }()", n) + "\nf"
+	case "index-nest":
+		return "x := []int{0}\ny := " + rep("x[", n) + "0" + rep("]", n) + "\ny"
+	}
+	return ""
+}
+
+func c03scaleSpace(thorough bool) c03space {
+	widths := []int{127, 128, 129, 255, 256, 257, 32767, 32768, 65535, 65536, 65537, 131072}
+	if thorough {
+		widths = append(widths, 1<<20-1, 1<<20, 1<<20+1)
+	}
+	quads := []int{127, 128, 129, 255, 256, 257, 1024}
+	if thorough {
+		quads = append(quads, 4096)
+	}
+	var gens []c03scaleGen
+	for _, k := range c03padKinds {
+		for _, n := range widths {
+			for t := range c03scaleTails {
+				gens = append(gens, c03scaleGen{k, n, t})
+			}
+		}
+	}
+	for _, k := range c03bigKinds {
+		for _, n := range widths {
+			if n > 70000 && k != "paren" && k != "string" && k != "ident" {
+				continue
+			}
+			gens = append(gens, c03scaleGen{k, n, 0})
+		}
+	}
+	for _, k := range c03quadKinds {
+		for _, n := range quads {
+			gens = append(gens, c03scaleGen{k, n, 0})
+		}
+	}
+	// nesting a million deep: the front end must refuse or cope, not overflow the Go stack (plain Eval only:
+	// the dumps of such a tree are quadratic in its depth)
+	nflat := len(gens) * 4
+	var deep []c03scaleGen
+	for _, k := range c03quadKinds {
+		if k != "cases" { // flat, but quadratic to compile
+			deep = append(deep, c03scaleGen{k, 1 << 20, 0})
+		}
+	}
+	return c03space{"scale", nflat + len(deep), func(i int) c03case {
+		if i >= nflat {
+			g := deep[i-nflat]
+			return c03case{Gen: &g, Masks: []int{0}}
+		}
+		g := gens[i/4]
+		return c03case{Gen: &g, Masks: []int{[]int{0, 1, 2, 4}[i%4]}}
+	}}
 }
 
 var c03dirs = []string{"main", "a", "vendor/a", "x/a"}
@@ -418,6 +707,9 @@ func c03exec(c c03case, mask int) string {
 	defer m.Close()
 	m.Ctx.MaxSteps = 20_000
 	m.Ctx.MaxDepth = 200
+	if c.Gen != nil {
+		m.Ctx.MaxSteps = 3_000_000
+	}
 	var sink bytes.Buffer
 	var sys fs.FS = fstest.MapFS{}
 	if c.Files != nil {
@@ -471,7 +763,12 @@ func c03exec(c c03case, mask int) string {
 
 func c03check(c c03case) string {
 	masks := []int{c.Opts}
-	if c.Files == nil {
+	if c.Gen != nil && c.Src == "" {
+		c.Src = c.Gen.source()
+	}
+	if c.Masks != nil {
+		masks = c.Masks
+	} else if c.Files == nil {
 		masks = []int{c.Idx % 8, 7}
 		if c.Idx%8 == 7 {
 			masks = []int{7, 0}
@@ -489,9 +786,11 @@ func c03check(c c03case) string {
 
 func c03child(args []string) {
 	// args: tier space from to
-	debug.SetMaxStack(64 << 20)
 	if len(args) < 4 {
 		os.Exit(3)
+	}
+	if args[1] != "scale" { // scale inputs nest deeply on purpose: they get Go's own stack limit
+		debug.SetMaxStack(64 << 20)
 	}
 	thorough := args[0] == "thorough"
 	from, _ := strconv.Atoi(args[2])
@@ -515,7 +814,12 @@ func c03child(args []string) {
 		}
 		c := sp.gen(i)
 		c.Space, c.Idx = sp.name, i
-		if p := c03check(c); p != "" {
+		t0 := time.Now()
+		p := c03check(c)
+		if os.Getenv("VERIF_C03_TIMES") != "" {
+			fmt.Fprintf(w, "TIME %d %v %v\n", i, time.Since(t0).Round(time.Millisecond), c03fileNames(c))
+		}
+		if p != "" {
 			fmt.Fprintf(w, "VIOL %d %s\n", i, strings.ReplaceAll(p, "\n", " "))
 			w.Flush()
 		}
@@ -568,11 +872,19 @@ func c03run(r *report.Run) {
 		from, to int
 	}
 	var jobs []job
+	only := os.Getenv("VERIF_C03_SPACES") // development aid: a comma-separated subset of the spaces
 	for _, sp := range spaces {
+		if only != "" && !strings.Contains(","+only+",", ","+sp.name+",") {
+			r.NotExhaustive("VERIF_C03_SPACES set: space " + sp.name + " skipped")
+			continue
+		}
 		r.Set("space_"+sp.name, sp.size)
 		chunk := 20000
-		if sp.name == "trees" {
+		switch sp.name {
+		case "trees", "types":
 			chunk = 5000
+		case "scale":
+			chunk = 24
 		}
 		for a := 0; a < sp.size; a += chunk {
 			b := a + chunk
@@ -657,6 +969,9 @@ func c03run(r *report.Run) {
 
 func c03fileNames(c c03case) []string {
 	var n []string
+	if c.Gen != nil {
+		return []string{fmt.Sprintf("kind=%s n=%d tail=%d masks=%v", c.Gen.Kind, c.Gen.N, c.Gen.Tail, c.Masks)}
+	}
 	for k := range c.Files {
 		n = append(n, k)
 	}
